@@ -418,6 +418,17 @@ class Interp:
         self._hash_status[cls_name] = res
         return res
 
+    def _class_scope(self, c, name, func):
+        """the scope a class-level value is evaluated in: the module (and class) that defines it, not the caller's"""
+        for k in self.repo.mro(c):
+            if name in k.attrs:
+                cache = self.__dict__.setdefault("_class_scopes", {})
+                sc = cache.get(id(k))
+                if sc is None:
+                    sc = cache[id(k)] = Func("<cls>", ast.parse("def f(): pass").body[0], k.module, k)
+                return sc
+        return func
+
     # ---- decorators ---------------------------------------------------------------------
     _TRANSPARENT_DECORATORS = {"property", "setter", "getter", "deleter", "staticmethod", "classmethod", "abstractmethod", "cached_property",
                                "cache", "lru_cache", "wraps", "dataclass", "total_ordering", "overload", "final", "register"}
@@ -645,7 +656,7 @@ class Interp:
             if self.repo.has_cls(obj.cls_name):
                 v = self.repo.lookup_attr(self.repo.cls(obj.cls_name), name)
                 if v is not None:
-                    val = self.static_value(v, func, depth)
+                    val = self.static_value(v, self._class_scope(self.repo.cls(obj.cls_name), name, func), depth)
                     if isinstance(val, tuple) and len(val) == 2 and val[0] == "property":
                         # `name = property(getter)` in the class body
                         return self.apply(val[1], [obj], {}, func, depth)
@@ -686,7 +697,7 @@ class Interp:
                     return ("bound", m, None if m.is_static else obj)
                 v = self.repo.lookup_attr(c, name)
                 if v is not None:
-                    return self.static_value(v, func, depth)
+                    return self.static_value(v, self._class_scope(c, name, func), depth)
             raise Uninterpretable(f"class attribute {obj.name}.{name}")
         if obj is None:
             raise Raised("AttributeError", f"NoneType.{name}")
@@ -694,6 +705,21 @@ class Interp:
             return Opaque(f"{obj.what}.{name}")
         if isinstance(obj, tuple) and len(obj) == 2 and obj[0] == "builtin" and obj[1] in ("set", "frozenset"):
             return ("setfn", name)
+        if isinstance(obj, tuple) and len(obj) == 2 and obj[0] == "repomodule":
+            m2 = self.repo.modules[obj[1]]
+            if name in m2.funcs:
+                return ("bound", m2.funcs[name], None)
+            if name in m2.classes:
+                return ClassTok(name)
+            if name in m2.assigns:
+                return self.static_value(m2.assigns[name], Func("<mod>", ast.parse("def f(): pass").body[0], m2), depth)
+            if name in m2.imports:
+                res = self.resolve_import(m2, name, func, depth, 0)
+                if res is not None:
+                    return res
+            if obj[1] + "." + name in self.repo.modules:
+                return ("repomodule", obj[1] + "." + name)
+            raise Raised("AttributeError", f"module {obj[1]} has no attribute {name}")
         if isinstance(obj, tuple) and len(obj) == 2 and obj[0] == "native" and hasattr(obj[1], name):
             return ("native", getattr(obj[1], name))
         if isinstance(obj, tuple) and len(obj) == 2 and obj == ("builtin", "chain") and name == "from_iterable":
@@ -1151,6 +1177,9 @@ class Interp:
             return res if isinstance(op, ast.In) else not res
         if isinstance(a, Opaque) or isinstance(b, Opaque):
             raise Uninterpretable("ordering of opaque values")
+        if (isinstance(a, Obj) and a.fields.get("__namedtuple__")) or (isinstance(b, Obj) and b.fields.get("__namedtuple__")):
+            if self.method(a if isinstance(a, Obj) else b, "__lt__") is None:
+                a, b = self._as_tuple(a), self._as_tuple(b)
         if isinstance(a, Obj) or isinstance(b, Obj):
             m = self.method(a if isinstance(a, Obj) else b, "__lt__")
             if m is None or not (isinstance(a, Obj) and isinstance(b, Obj)):
@@ -1194,7 +1223,17 @@ class Interp:
             raise Raised("TypeError", str(e))
         raise Uninterpretable(f"comparison {type(op).__name__}")
 
+    @staticmethod
+    def _as_tuple(x):
+        """a NamedTuple record as the tuple it is (comparison, ordering and hashing are those of tuples)"""
+        if isinstance(x, Obj) and x.fields.get("__namedtuple__"):
+            return tuple(Interp._as_tuple(x.fields[k]) for k in x.fields["__dataclass_fields__"])
+        return x
+
     def equals(self, a, b, depth):
+        if (isinstance(a, Obj) and a.fields.get("__namedtuple__")) or (isinstance(b, Obj) and b.fields.get("__namedtuple__")):
+            if self.method(a if isinstance(a, Obj) else b, "__eq__") is None:
+                a, b = self._as_tuple(a), self._as_tuple(b)
         if isinstance(a, Obj):
             m = self.method(a, "__eq__")
             if m is not None:
@@ -1488,7 +1527,7 @@ class Interp:
             self._comp(n.generators, 0, env, func, depth, put)
             return out
         if t is ast.Lambda:
-            return ("lambda", n, dict(env))
+            return ("lambda", n, dict(env), func)
         if t is ast.Call:
             return self.eval_call(n, env, func, depth)
         if t is ast.NamedExpr:
@@ -1515,9 +1554,17 @@ class Interp:
         if hops > 6 or name not in mod.imports:
             return None
         imod, iname = mod.imports[name]
-        if not imod.startswith("inscripta.biocantor") or not iname:
+        if not imod.startswith("inscripta.biocantor"):
             return None
         short = imod[len("inscripta.biocantor."):] if len(imod) > len("inscripta.biocantor") else "__init__"
+        if not iname:
+            # `import inscripta.biocantor.x.y as z`: the module itself
+            return ("repomodule", short) if short in self.repo.modules else None
+        pkg = self.repo.modules.get(short) or self.repo.modules.get(short + ".__init__")
+        sub = short + "." + iname if short != "__init__" else iname
+        if sub in self.repo.modules and not (pkg is not None and (iname in pkg.funcs or iname in pkg.classes or iname in pkg.assigns or iname in pkg.imports)):
+            # `from package import submodule`: the package does not define the name itself, so it is the submodule
+            return ("repomodule", sub)
         for cand in (short, short + "." + iname):
             m2 = self.repo.modules.get(cand)
             if m2 is None:
@@ -1783,11 +1830,26 @@ class Interp:
                 return _Gen(dict.__getitem__(env2, "__yields__")) if is_gen else r.value
             return _Gen(dict.__getitem__(env2, "__yields__")) if is_gen else None
         if isinstance(f, tuple) and f and f[0] == "lambda":
-            _, lam, cenv = f
+            lam, cenv = f[1], f[2]
+            home = f[3] if len(f) > 3 and f[3] is not None else func  # names are resolved where the lambda was written
             env2 = dict(cenv)
-            for p, v in zip([a.arg for a in lam.args.args], args):
+            la = lam.args
+            params = [a.arg for a in la.posonlyargs + la.args]
+            if len(args) > len(params) and not la.vararg:
+                raise Raised("TypeError", "too many positional arguments for lambda")
+            for p, v in zip(params, args):
                 env2[p] = v
-            return self.eval(lam.body, env2, func, depth + 1)
+            if la.vararg:
+                env2[la.vararg.arg] = tuple(args[len(params):])
+            for k_, v in kwargs.items():
+                env2[k_] = v
+            for p, d in zip(params[len(params) - len(la.defaults):], la.defaults):
+                if params.index(p) >= len(args) and p not in kwargs:
+                    env2[p] = self.eval(d, cenv, home, depth)
+            for a_, d in zip(la.kwonlyargs, la.kw_defaults):
+                if a_.arg not in kwargs and d is not None:
+                    env2[a_.arg] = self.eval(d, cenv, home, depth)
+            return self.eval(lam.body, env2, home, depth + 1)
         if isinstance(f, tuple) and f and f[0] == "pymethod":
             _, o, name = f
             if isinstance(o, SetVal):
